@@ -1,2 +1,6 @@
 import MpdProofs.Lemmas.Bytes
 import MpdProofs.C20
+import MpdProofs.Lemmas.Tok
+import MpdProofs.C06
+import MpdProofs.C07
+import MpdProofs.C13
